@@ -232,7 +232,7 @@ fn wellformed(rng: &mut Rng, big: bool) -> Vec<u8> {
     let mut out = String::new();
     for it in items {
         while rng.chance(1, 5) {
-            out += *rng.pick(&["\n", "# comment v 1 2 3\n", "   \n", "  # f 9 9 9\n", "#\n", "\t\r\n"]);
+            out += *rng.pick(&["\n", "# comment v 1 2 3\n", "   \n", "  # f 9 9 9\n", "#\n", "\t\r\n", "# exported from C:\\models\\\n", "#\\\n"]);
         }
         if rng.chance(1, 150) {
             // a very long comment whose text reads like items: nothing of it may be taken for one
@@ -264,7 +264,7 @@ fn mutate(rng: &mut Rng, mut f: Vec<u8>) -> Vec<u8> {
         return f;
     }
     let i = rng.below(f.len() as u64) as usize;
-    match rng.below(8) {
+    match rng.below(9) {
         0 => {
             f.truncate(i);
         }
@@ -285,7 +285,16 @@ fn mutate(rng: &mut Rng, mut f: Vec<u8>) -> Vec<u8> {
             f.remove(i);
         }
         2 => f[i] = rng.below(256) as u8,
-        3 => f.insert(i, *rng.pick(b" /0-9x#\n\xFFv")),
+        3 => f.insert(i, *rng.pick(b" /0-9x#\n\xFFv\\")),
+        8 => {
+            // a coordinate that is not a finite number
+            if let Some(j) = (i..f.len()).find(|&j| f[j] == b'v' && f.get(j + 1) == Some(&b' ')) {
+                let lit = *rng.pick(&[&b" inf"[..], b" -inf", b" nan", b" NaN", b" 1e39", b" -4e38", b" infinity", b" 3.5e38"]);
+                for (k, b) in lit.iter().enumerate() {
+                    f.insert(j + 1 + k, *b);
+                }
+            }
+        }
         4 => {
             // replace a digit by 0
             if let Some(j) = (i..f.len()).find(|&j| f[j].is_ascii_digit()) {
@@ -336,7 +345,8 @@ pub fn gen(args: &Args, out: &mut dyn Write) {
         writeln!(out, "{}", json!({"k": format!("o{}-{}", args.seed, k), "via": via, "bytes": bytes})).unwrap();
         k += 1;
     };
-    let specials: [&[u8]; 21] = [
+    let specials: [&[u8]; 24] = [
+        b"v inf 0 0\nv 0 0 0\nv 1 0 0\nf 1 2 3", b"v 1e39 0 0\nv 0 nan 0\nv 1 0 -inf\nf 1 2 3", b"# ends in a backslash \\\nv 0 0 0\nv 1 0 0\nv 0 1 0\n#\\\nf 1 2 3\n",
         b"v 0 0 0\nf -9223372036854775808 1 1", b"v 0 0 0\nvt 0 0\nf 1/-9223372036854775808 1/1 1/1", b"v 0 0 0\nvn 0 0 1\nf 1//1 1//-9223372036854775808 1//1",
         b"v 0 0 0\nv 1 0 0\nv 0 1 0\nf 1 2 3 4", b"v 1 2 3\nf 1 1 1 2", b"v 0 0 0\nv 1 0 0\nv 0 1 0\nv 1 1 0\nf 1 2 3 4 99\n",
         b"v 0 0 0\nv 1 0 0\nv 0 1 0\nv 1 1 0\nf 1 2 3 4",
